@@ -34,6 +34,8 @@ def all_configs(tier):
                    bound='as s1_weekly with the bar of day 3 (Thu) missing: event times no longer coincide with price rows'))
     c.append(_base('s2_weekly', assets=['EQ:A', 'EQ:B'], weights={'EQ:A': 0.6, 'EQ:B': 0.4}, weight=2000, chunk=4,
                    bound='2 assets (weights 0.6/0.4), 8 business days, weekly WED, long-only 5% buffer, 0.1% fee'))
+    c.append(_base('s2_latestart', assets=['EQ:A', 'EQ:B'], weights={'EQ:A': 0.5, 'EQ:B': 0.5}, first_bar={'EQ:B': 4}, weight=1500, chunk=4,
+                   bound='2 assets, the bars of B start on day 4 (after the first rebalance on day 2): the price of B is unavailable when first sized'))
     c.append(_base('s1_burnin', burn_in='2020-01-09 21:00', nd=9, weekday='THU',
                    bound='1 asset, 9 business days, weekly THU, burn-in exactly on the first rebalance instant'))
     c.append(_base('s1_bah', rebalance='buy_and_hold', start_tod='14:30', nd=5,
@@ -53,7 +55,7 @@ def all_configs(tier):
 
 
 PROP_CONFIGS = {
-    'C07': dict(quick=['s1_weekly', 's1_weekly_holiday', 's2_weekly'], thorough=None),
+    'C07': dict(quick=['s1_weekly', 's1_weekly_holiday', 's2_weekly', 's2_latestart'], thorough=None),
     'C08': dict(quick=['s1_weekly', 's1_bah'], thorough=['s1_weekly', 's1_bah', 's2_weekly', 's1_ls', 's2_ls', 's1_eom', 's1_daily', 's1_weekly_fri', 's1_zerofee_weekly_mon']),
     'C14': dict(quick=['s1_weekly', 's1_burnin', 's1_bah'], thorough=['s1_weekly', 's1_burnin', 's1_bah', 's1_burnin_between', 's1_eom', 's1_daily', 's2_weekly', 's1_weekly_fri']),
 }
@@ -66,7 +68,7 @@ def configs_for(prop, tier):
     for c in allc:
         if names is None or c['name'] in names:
             c = dict(c, oracle=prop, name='%s' % c['name'])
-            c['twins'] = {'C07': ['traded'], 'C08': ['traded'], 'C14': ['traded']}.get(prop, [])
+            c['twins'] = [] if c['name'] == 's2_latestart' else {'C07': ['traded'], 'C08': ['traded'], 'C14': ['traded']}.get(prop, [])
             out.append(c)
     return out
 
